@@ -74,6 +74,14 @@ inline std::optional<uint16_t> step(const State& s, unsigned unit, uint16_t r, S
         }
         return (uint16_t)(r + d);
     }
+    // a configured step of 0 is a zero step whatever the addressing mode: the register does not move
+    if (k == PlusS) {
+        bool j = unit >= 4;
+        bool use16 = s[flat::F_stp16] && !s[flat::F_cmd];
+        uint16_t configured = (uint16_t)(use16 ? (j ? s[flat::F_stepj0] : s[flat::F_stepi0]) : (j ? s[flat::F_stepj] : s[flat::F_stepi]));
+        if (configured == 0)
+            return r;
+    }
     // modulo addressing: only +-1 inside the buffer is specified
     if (k != Inc && k != Dec)
         return std::nullopt;
